@@ -5,7 +5,7 @@ cd "$(dirname "$0")/.."
 python3 tools/setup.py > /tmp/thorough_setup.$$ 2>&1 || { tail -5 /tmp/thorough_setup.$$; exit 2; }
 props=("$@"); [ ${#props[@]} -gt 0 ] || props=(C01 C02 C03 C04 C05 C06 C07 C08 C09 C10 C11 C12 C13 C14 C15 C16 C17 C18 C19 C20)
 for p in "${props[@]}"; do
-  s=$(date +%s); out=$(timeout 7200 python3 tools/check.py "$p" --tier thorough 2>&1); rc=$?
-  echo "$p rc=$rc $(( $(date +%s) - s ))s :: $(echo "$out" | tail -1 | cut -c1-200)"
+  s=$(date +%s); out=$(/usr/bin/time -f "PEAKRSS_KB=%M" timeout 7200 python3 tools/check.py "$p" --tier thorough 2>&1); rc=$?
+  echo "$p rc=$rc $(( $(date +%s) - s ))s $(echo "$out" | grep -o 'PEAKRSS_KB=[0-9]*') :: $(echo "$out" | grep -v PEAKRSS | tail -1 | cut -c1-200)"
   echo "$out" | grep -E '^(VIOLATION|KNOWN-FINDING|  ->)' | cut -c1-400 | head -12
 done
